@@ -295,7 +295,7 @@ class Pipeline(Instance):
     def native(self, inp):
         case = {"threads": self.threads, "k": self.k, "splitters": [str(kmer_canon(w)) for w in self.splitters], "driver": self.driver, "qcap": self.qcap,
                 "cfg": {n: (v.v if hasattr(v, "v") else v) for n, v in self.cfg.items()},
-                "samples": [[sn.decode(), [[cn.decode(), list(d)] for cn, d in cs]] for sn, cs in self.samples], "runs": 12 if self.view != "fault" else 0}
+                "samples": [[sn.decode(), [[cn.decode(), list(d)] for cn, d in cs]] for sn, cs in self.samples], "runs": {"determinism": 12, "fault": 0}.get(self.view, 2), "indep": self.view == "format"}
         if inp.get("samples"):
             case["samples"] = inp["samples"]
         if self.view == "fault":
